@@ -59,7 +59,9 @@ NodeVal(x) == Ev.ys[CHOOSE i \in 1..Len(Ev.xq) : X(Ev.xq[i]) = x]
 VerdictRoot(isder) ==
   LET lo == EffLo(Ev.xl, Ev.xh, Ev.xq)
       hi == EffHi(Ev.xl, Ev.xh, Ev.xq)
-      allow == Add(MulInt(Ev.tol, 2), Mul(Dec(1, 11), Ev.ymax))
+      \* float noise of evaluating the interpolant: 1e-11 of the data's size (1e-13 where the tolerance was tightened
+      \* to 1e-12 on data of size <= 50: tight = 1)
+      allow == Add(MulInt(Ev.tol, 2), Mul(IF Ev.tight = 1 THEN Dec(1, 13) ELSE Dec(1, 11), Ev.ymax))
       F(x) == IF isder THEN PolyDeriv(Ev.pc, x) ELSE PolyEval(Ev.pc, x)
   IN IF ~Lt(lo, hi) THEN {}                                   \* empty effective interval: unspecified
      ELSE IF isder /\ Gt(Ev.ymax, FromInt(1000)) THEN {}     \* extremum search uses a fixed 1e-10 tolerance on f': not attainable in floats for large data
